@@ -994,15 +994,14 @@ class EventBus:
             # (while awaiting a child) when its own timeout fired. Nobody is going to resume this event: fail the handlers
             # that will never run, so that the event, its waiters and its ancestors can still complete, then re-raise.
             interruption = e
-            if not self.parallel_handlers:
-                for handler_id in applicable_handlers:
-                    pending_result = event.event_results.get(handler_id)
-                    if pending_result is not None and pending_result.status == 'pending':
-                        pending_result.update(
-                            error=asyncio.CancelledError(
-                                f'Cancelled pending handler: processing of {event} by {self} was interrupted'
-                            )
+            for handler_id in applicable_handlers:
+                pending_result = event.event_results.get(handler_id)
+                if pending_result is not None and pending_result.status == 'pending':
+                    pending_result.update(
+                        error=asyncio.CancelledError(
+                            f'Cancelled pending handler: processing of {event} by {self} was interrupted'
                         )
+                    )
 
         if interruption is None:
             await self._default_log_handler(event)
@@ -1090,12 +1089,21 @@ class EventBus:
                 handler_tasks[handler_id] = (task, handler)
 
             # Wait for all handlers to complete
-            for handler_id, (task, handler) in handler_tasks.items():
-                try:
-                    await task
-                except Exception:
-                    # Error already logged and recorded in execute_handler
-                    pass
+            try:
+                for handler_id, (task, handler) in handler_tasks.items():
+                    try:
+                        await task
+                    except Exception:
+                        # Error already logged and recorded in execute_handler
+                        pass
+            except asyncio.CancelledError:
+                # We are being cancelled (e.g. the handler processing this event inline timed out): like in serial mode,
+                # the handlers started for this event must be interrupted too, not left running on their own
+                for task, _handler in handler_tasks.values():
+                    if not task.done():
+                        task.cancel()
+                await asyncio.gather(*(task for task, _handler in handler_tasks.values()), return_exceptions=True)
+                raise
         else:
             # otherwise, execute handlers serially, wait until each one completes before moving on to the next
             for handler_id, handler in applicable_handlers.items():
